@@ -11,8 +11,11 @@ import (
 	"encoding/binary"
 	"fmt"
 	"regexp"
+	"runtime"
 	"strconv"
 	"strings"
+	"sync"
+	"sync/atomic"
 
 	"Havoc/pkg/agent"
 	"Havoc/pkg/handlers"
@@ -214,6 +217,79 @@ func (w *c04World) line(c *Ctx, in string) {
 			return fmt.Sprintf("%s sameid=%s total=%s concat=%s before=%s", ls, b(sameid), b(total), b(bytes.Equal(cat, file)), b(before && seenUse))
 		})
 		c.Emit("%s => %s", in, out)
+	case "conc": // conc <id> <producers> <each>: real goroutines; producers queue through AddJobToQueue while the listener side checks in
+		a := w.agents[parts[1]]
+		id64, _ := strconv.ParseUint(parts[1], 16, 32)
+		k := w.keys[parts[1]]
+		np, _ := strconv.Atoi(parts[2])
+		each, _ := strconv.Atoi(parts[3])
+		out := guardT(ms(20000), func() string {
+			var wg sync.WaitGroup
+			start := make(chan struct{})
+			var perr atomic.Value
+			for p := 0; p < np; p++ {
+				wg.Add(1)
+				go func(p int) {
+					defer wg.Done()
+					defer func() {
+						if r := recover(); r != nil {
+							perr.Store("PANIC:producer:" + strings.ReplaceAll(fmt.Sprint(r), " ", "_"))
+						}
+					}()
+					<-start
+					for i := 0; i < each; i++ {
+						a.AddJobToQueue(agent.Job{Command: 11, RequestID: uint32(p+1)<<16 | uint32(i), Data: []interface{}{int32(i)}})
+						if i%7 == 3 {
+							runtime.Gosched()
+						}
+					}
+				}(p)
+			}
+			done := make(chan struct{})
+			go func() { wg.Wait(); close(done) }()
+			close(start)
+			var got []string
+			req := demonRequest(uint32(id64), k[0], k[1], []dpkg{{cmd: agent.COMMAND_GET_JOB, req: 1, nobody: true}})
+			finished, idle := false, 0
+			for idle < 2 {
+				if !finished {
+					select {
+					case <-done:
+						finished = true
+					default:
+					}
+				}
+				resp, ok := handlers.VerifParseAgentRequest(w.ts, req, "127.0.0.1")
+				w.ts.Take()
+				if !ok {
+					return "REJECTED"
+				}
+				d := decodeResponse(resp.Bytes())
+				if d == "N" {
+					if finished {
+						idle++
+					}
+					continue
+				}
+				if !strings.HasPrefix(d, "J ") {
+					return d
+				}
+				for _, t := range strings.Split(d[2:], ";") {
+					f := strings.Split(t, ":")
+					r, _ := strconv.ParseUint(f[1], 10, 32)
+					got = append(got, fmt.Sprintf("%d.%d", r>>16, r&0xffff))
+				}
+			}
+			if e := perr.Load(); e != nil {
+				return e.(string)
+			}
+			ls := strings.Join(got, ",")
+			if ls == "" {
+				ls = "-"
+			}
+			return fmt.Sprintf("tasks=%d %s", len(a.Tasks), ls)
+		})
+		c.Emit("%s => %s", in, out)
 	default:
 		panic("C04: unknown op " + parts[0])
 	}
@@ -280,6 +356,18 @@ func runC04(c *Ctx) {
 		c.Count("chunks")
 		w.line(c, "reset")
 		w.line(c, fmt.Sprintf("chunks %d %d", sz, max))
+	}
+	// real goroutines: producers against the checking-in listener side
+	nconc := 6
+	if c.Tier == "thorough" {
+		nconc = 60
+	}
+	for i := 0; i < nconc; i++ {
+		c.Count("conc")
+		w.line(c, "reset")
+		id := fmt.Sprintf("%08x", 0x4000+uint32(r.Intn(0xffff)))
+		w.line(c, "agent "+id)
+		w.line(c, fmt.Sprintf("conc %s %d %d", id, 2+r.Intn(5), 200+r.Intn(1800)))
 	}
 	for c.Lines < c.N {
 		w.line(c, "reset")
